@@ -119,7 +119,7 @@ theorem firstErr_eq_none {l : List (Option String)} : firstErr l = none ↔ ∀ 
 
 theorem goCopy_take {α : Type} (dst src : List α) (h : src.length ≤ dst.length) :
     (goCopy dst src).take src.length = src := by
-  simp [goCopy, List.take_append, List.take_of_length_le h]
+  simp [goCopy, List.take_of_length_le h]
 
 theorem goCopyN_of_le {α : Type} (dst src : List α) (h : src.length ≤ dst.length) :
     goCopyN dst src = src.length := by
